@@ -3,7 +3,6 @@ import MythVerif.Proofs.WsQueueTsoTac
 namespace MythVerif.WsqTso
 open MythVerif.Wsq
 
-set_option maxHeartbeats 4000000 in
 theorem o_cll (s s' : St) : Inv s → s.opc = .cll → stepO s = some s' → Inv s' := by
   intro h heq hs
   simp only [stepO, heq] at hs
@@ -16,7 +15,6 @@ theorem o_cll (s s' : St) : Inv s → s.opc = .cll → stepO s = some s' → Inv
     · simp at hs; subst hs; exact h
   · simp at hs
 
-set_option maxHeartbeats 4000000 in
 theorem o_cl1 (s s' : St) : Inv s → s.opc = .cl1 → stepO s = some s' → Inv s' := by
   intro h heq hs
   have hb := (h.cl1 heq).1
@@ -25,7 +23,6 @@ theorem o_cl1 (s s' : St) : Inv s → s.opc = .cl1 → stepO s = some s' → Inv
   all_goals (simp at hs; subst hs)
   all_goals tso_fastO h heq [cl1]
 
-set_option maxHeartbeats 4000000 in
 theorem o_cl2 (s s' : St) : Inv s → s.opc = .cl2 → stepO s = some s' → Inv s' := by
   intro h heq hs
   have hv := cl2_viewBase _ _ _ (h.cl2 heq).2.2.2
@@ -33,7 +30,6 @@ theorem o_cl2 (s s' : St) : Inv s → s.opc = .cl2 → stepO s = some s' → Inv
   simp at hs; subst hs
   tso_fastO h heq [cl2]
 
-set_option maxHeartbeats 4000000 in
 theorem o_cl3 (s s' : St) : Inv s → s.opc = .cl3 → stepO s = some s' → Inv s' := by
   intro h heq hs
   have hcfg := h.cfg
